@@ -15,7 +15,8 @@ BOUNDS = ("the C08 write scenarios (lengths around the 256/2304/4608 boundaries,
           "DiskFile.list_files; second sentence: images built by the independent writer (vlib/oracle_decb.write_image) "
           "on ENUMERATED granule chains (quick: 40 seeded layouts always including non-adjacent, descending and "
           "track-17-straddling chains; thorough: all 4,556 ordered granule pairs and a seeded sample of triples) with "
-          "symbolic bytes/addresses, listed by the tool")
+          "symbolic bytes/addresses, listed by the tool; every link VALUE a chain can hold (quick: 0,1,31-34,48,63-67; "
+          "thorough: all 68) for ML, BASIC and ASCII files; fill orders whose chains link into granule 0 and granules 62-67")
 OUTSIDE = "chain layouts are enumerated (a symbolic granule number used as an index is realised value by value)"
 ASSUMPTIONS = c06.ASSUMPTIONS
 
